@@ -45,6 +45,9 @@ STUBS = {
     # exits before reading (all of) its input, having echoed the first 4 KiB, with status 0: for inputs larger than the
     # pipe buffer the write fails; the truncated echo must not be taken for the formatted program
     "exit0_partial_without_reading_all": "#!/bin/sh\nhead -c 4096\nexit 0\n",
+    # a failing formatter that explains itself on stderr (several lines, as rustfmt does)
+    "exit1_with_diagnostics": "#!/bin/sh\ncat >/dev/null\nprintf 'error: expected item\\n --> <stdin>:1:1\\n  |\\n1 | oops\\n' >&2\nexit 1\n",
+    "status1_complete_garbage": "#!/bin/sh\ncat >/dev/null\nprintf 'pub fn unrelated() {}\\n'\nexit 1\n",
 }
 ONLY_BIG = {"exit0_partial_without_reading_all"}     # for small inputs the whole input fits the pipe: the stub is then a lying formatter, outside the property
 # model outcome per fault: (constructor term for small output, for big output), expected use_formatted
@@ -64,6 +67,8 @@ MODEL = {
     "exit1_after_partial_output": ("Ran WOk ExitN true false",) * 2,
     "killed_partial_without_reading_all": ("Ran WOk Signal true false", "Ran WErr Signal true false"),
     "exit0_partial_without_reading_all": ("Ran WOk Exit0 true false", "Ran WErr Exit0 true false"),
+    "exit1_with_diagnostics": ("Ran WOk ExitN true true",) * 2,
+    "status1_complete_garbage": ("Ran WOk ExitN true false",) * 2,
 }
 
 
